@@ -49,6 +49,12 @@ type Sched struct {
 	Panics  map[string]interface{}
 	// NoYield: goroutines whose yields are ignored (run freely)
 	disabled bool
+	// Starve: a goroutine that is not resumed while it is parked at an I/O event (not a lock
+	// operation) as long as anybody else can run or time can still move somebody (a stalled
+	// underlying call); StarveBudget bounds the time the controller lets pass that way.
+	Starve       string
+	StarveBudget time.Duration
+	Picks        []int // the index taken at every choice point (-1: the controller let time pass)
 	// time goroutines spent held at yield points (summed over goroutines): wall-clock
 	// durations measured under the scheduler include it
 	heldNanos int64
@@ -207,6 +213,24 @@ func (s *Sched) enabled() []string {
 	return out
 }
 
+func (s *Sched) parkedAtLock(name string) bool {
+	s.mu.Lock()
+	defer s.mu.Unlock()
+	p := s.parked[name]
+	return p != nil && (strings.Contains(p.ev, "lock@") || p.ev == "start")
+}
+
+func (s *Sched) allDoneExcept(name string) bool {
+	s.mu.Lock()
+	defer s.mu.Unlock()
+	for _, w := range s.workers {
+		if w != name && !s.done[w] {
+			return false
+		}
+	}
+	return true
+}
+
 func (s *Sched) allDone() bool {
 	s.mu.Lock()
 	defer s.mu.Unlock()
@@ -253,12 +277,32 @@ func (s *Sched) Run(pick func(step int, enabled []string) int, timerWait time.Du
 				return widths, !s.allDone()
 			}
 		}
+		if s.Starve != "" && s.StarveBudget > 0 {
+			vi := -1
+			for k, n := range en {
+				if n == s.Starve {
+					vi = k
+				}
+			}
+			if vi >= 0 && !s.parkedAtLock(s.Starve) {
+				if len(en) > 1 {
+					en = append(append([]string{}, en[:vi]...), en[vi+1:]...)
+				} else if !s.allDoneExcept(s.Starve) {
+					time.Sleep(2 * time.Millisecond)
+					s.StarveBudget -= 2 * time.Millisecond
+					s.Picks = append(s.Picks, -1)
+					step--
+					continue
+				}
+			}
+		}
 		i := pick(step, en)
 		if i < 0 {
 			i = 0
 		}
 		i %= len(en) // random walks hand in large random numbers (Walks); DFS choices are below the width
 		widths = append(widths, len(en))
+		s.Picks = append(s.Picks, i)
 		s.resume(en[i], en)
 	}
 }
